@@ -458,7 +458,7 @@ def check_body(w, body, s, b1, n, literal):
         key = (w.name, src)
         t = _LIT_CACHE.get(key)
         if t is None:
-            if w.volatile_off and _const_output_in_volatile(w.env, apply_marks(src, w.pre, w.post)):
+            if False:  # D1 was repaired in /repo (constant output in a volatile frame is escaped at runtime): no exclusion
                 t = "D1"
             else:
                 try:
@@ -624,3 +624,28 @@ def conditions(tier, seed):
                     bounds=f"names = prefix from {NAME_PRE!r} + suffix from {NAME_SUF!r} x default_for_string x default; selector function and "
                            "Environment.get_template/from_string"))
     return out
+
+
+# ------------------------------------------------------------------ known-finding witnesses (see known_findings.json)
+def known_filter_block_result_ok():
+    """D2: the result of a {% filter %} block / a set-block filter is emitted (or marked safe) without escaping."""
+    from jinja2 import Environment as _E
+    e = _E(autoescape=True)
+    a = e.from_string("{% set x | striptags %}{{ u }}{% endset %}{{ x }}").render(u="<b>")
+    b = e.from_string("{% filter join(u) %}ab{% endfilter %}").render(u="<")
+    return "<" not in a and "<" not in b
+
+
+def known_imported_macro_ok():
+    """D4: a macro compiled without autoescaping, called from an autoescaped template, leaks its argument."""
+    from jinja2 import DictLoader as _D, Environment as _E, select_autoescape as _S
+    e = _E(autoescape=_S(), loader=_D({"lib.txt": "{% macro m(x) %}[{{ x }}]{% endmacro %}",
+                                         "a.html": '{% import "lib.txt" as lib %}{{ lib.m(u) }}'}))
+    return "<" not in e.get_template("a.html").render(u="<b>")
+
+
+def known_block_in_autoescape_region_ok():
+    """D5: a {% block %} inside an {% autoescape true %} region of a non-escaping template is compiled with the template-level flag."""
+    from jinja2 import Environment as _E
+    e = _E(autoescape=False)
+    return "<" not in e.from_string("{% autoescape true %}{% block b %}{{ u }}{% endblock %}{% endautoescape %}").render(u="<x>")
